@@ -23,6 +23,12 @@ def get {α} [FromJson α] (j : Json) (k : String) : Except String α :=
 
 def sortStrs (l : List String) : List String := (l.toArray.qsort (· < ·)).toList
 
+def flat {α} [Repr α] (a : α) : String :=
+  " ".intercalate (((toString (repr a)).splitOn "\n").map (fun s => s.trimAscii.toString))
+
+def smapStr (m : SMap) : String := ",".intercalate (sortStrs (m.map (fun e => e.k ++ "=" ++ e.v)))
+
+
 /-! ### limits -/
 def hLimits (inp out : Json) : Except String Findings := do
   let p : LimitParams ← fromJson? inp
@@ -319,7 +325,7 @@ def hDefaults (inp out : Json) : Except String Findings := do
   let d2 : Strategy ← get out "defaultedTwice"
   let vdef : String ← get out "validateDefaulted"
   let m := defaultSpec s mode
-  let fs := diff fs "defaulted" (toString (repr d)) (toString (repr m.1))
+  let fs := diff fs "defaulted" (flat d) (flat m.1)
   let fs := diff fs "defaultedTemplateName" dtn m.2
   let fs := diff fs "validateDefaulted" vdef (validateStr (validateSpec m.1))
   let fs := spec fs "C16.recognised" dIsDef
@@ -392,6 +398,76 @@ def hFilter (inp out : Json) : Except String Findings := do
   let fs := spec fs "C01.unknown-untouched" (Spec.C01.unknownUntouched pods kept toDelete)
   return fs
 
+/-! ### CreatePodFromDaemonSetReplicaSet + compareCurrentPodWithNewPod -/
+structure PerturbJ where
+  kind : String
+  ers : ERS
+  item : NodeItem
+  result : Bool
+  deriving FromJson
+
+def podStr (p : Pod) : String :=
+  s!"name={p.name} ns={p.ns} labels=[{smapStr p.labels}] ann=[{smapStr p.annotations}] owners={flat p.owners} node={p.nodeName} affOther={p.affOther} aff={flat p.affRequired} tol={flat p.tolerations} cont={flat p.containers}"
+
+def hCreatePod (inp out : Json) : Except String Findings := do
+  let rs : ERS ← get inp "ers"
+  let item : NodeItem ← get inp "item"
+  let aff : Bool ← get inp "affinity"
+  let pn : Bool ← get out "panic"
+  let fs : Findings := #[]
+  if pn then return spec (diff fs "panic" pn false) "C16.no-crash(CreatePod)" false else
+  let pod : Pod ← get out "pod"
+  let err : Bool ← get out "err"
+  let same : Bool ← get out "compareSame"
+  let readBack : String ← get out "readBack"
+  let perts : List PerturbJ ← get out "perturbations"
+  let m := createPod rs (some item.node) item.setting aff
+  let fs := diff fs "pod" (podStr pod) (podStr m.pod)
+  let fs := diff fs "err" err m.overrideError
+  let fs := diff fs "compareSame" same (comparePod rs.templateGeneration pod item)
+  let fs := diff fs "readBack" readBack (nodeNameFromAffinity pod.affRequired)
+  let fs := perts.foldl (fun fs pt => diff fs s!"compare[{pt.kind}]" pt.result (comparePod pt.ers.templateGeneration pod pt.item)) fs
+  -- specification on the implementation's pod
+  let distinctNames := decide (rs.template.containers.map (·.name)).Nodup
+  -- a template whose required node affinity has no term at all is rejected by the API server
+  -- (pod validation: at least one node selector term); the pinning clause is about the others
+  let emptyTerms := rs.template.affRequired == some []
+  let fs := if emptyTerms then fs else spec fs "C10.pinned" (Spec.C10.pinned pod item.node.name aff)
+  let fs := if emptyTerms then fs else spec fs "C10.read-back" (!aff || readBack == item.node.name)
+  let fs := spec fs "C10.meta" (Spec.C10.metaOk pod rs)
+  let fs := if distinctNames then spec fs "C10.resources" (Spec.C10.resources pod rs.template item.node item.setting) else fs
+  let fs := spec fs "C10.roundtrip" same
+  let fs := perts.foldl (fun fs pt =>
+      if pt.kind == "template" then
+        spec fs "C10.detects-template" (pt.ers.templateGeneration == rs.templateGeneration || !pt.result)
+      else if pt.kind == "annotation" then
+        spec fs "C10.detects-annotation" (pt.item.node.resHash == item.node.resHash || !pt.result)
+      else if pt.kind == "setting" then
+        -- a value demanded by the applicable setting that differs from the pod's is detected
+        let demanded := match pt.item.setting with
+          | some s2 => pod.containers.any (fun c =>
+              !(pt.item.node.overrides.any (fun o => o.container == c.name && o.ok)) &&
+              (match s2.containers.find? (fun x => x.name == c.name) with
+               | some x => !(overlayIsNoop c.res.limits x.res.limits && overlayIsNoop c.res.requests x.res.requests)
+               | none => false))
+          | none => false
+        spec fs "C10.detects-setting" (!demanded || !pt.result)
+      else fs) fs
+  return fs
+
+def hNodeHash (inp out : Json) : Except String Findings := do
+  let a : Node ← get inp "a"
+  let b : Node ← get inp "b"
+  let prefix_ : String ← get inp "prefix"
+  let ha : String ← get out "ha"
+  let hb : String ← get out "hb"
+  let sub := fun (n : Node) => n.annotations.filter (fun e => e.k.startsWith prefix_)
+  let fs : Findings := #[]
+  let fs := diff fs "hash-equal-iff-submaps-equal" (ha == hb) (sub a == sub b)
+  let fs := diff fs "hash-empty-iff-no-annotation" (ha == "") ((sub a).isEmpty)
+  let fs := diff fs "resHash(a)" a.resHash ha
+  return fs
+
 def handlers : List (String × (Json → Json → Except String Findings)) := [
   ("limits", hLimits),
   ("max_creation", hMaxCreation),
@@ -403,7 +479,9 @@ def handlers : List (String × (Json → Json → Except String Findings)) := [
   ("defaults", hDefaults),
   ("setting_conflict", hSettingConflict),
   ("fitness", hFitness),
-  ("filter", hFilter)
+  ("filter", hFilter),
+  ("create_pod", hCreatePod),
+  ("node_hash", hNodeHash)
 ]
 
 def handleLine (line : String) : String :=
